@@ -27,6 +27,10 @@ func runC18(in *Sx) *Sx {
 		dint = []int{int(v)}
 		dint64 = []int64{v}
 	}
+	var dfloat []float64
+	if len(dint64) > 0 {
+		dfloat = []float64{float64(dint64[0]) + 0.5}
+	}
 	var dbool []bool
 	if d := in.Field("dbool").Args()[0]; d.Atom != "none" {
 		dbool = []bool{d.Atom == "1"}
@@ -47,6 +51,7 @@ func runC18(in *Sx) *Sx {
 			T("bool", B(c.QueryBool("q", dbool...))),
 			T("int", I64(int64(c.QueryInt("q", dint...)))),
 			T("int64", I64(c.QueryInt64("q", dint64...))),
+			T("float", B(c18floatOK(c.QueryFloat64("q", dfloat...), c.Query("q"), dfloat))),
 			T("absent", X(c.Query("nope", dstr...)), I64(c.QueryInt64("nope", dint64...)), B(c.QueryBool("nope", dbool...)),
 				X(c.QueryTrim("nope", dstr...)), X(c.QueryUnescape("nope", dstr...)), I64(int64(c.QueryInt("nope", dint...)))),
 			T("param", X(c.Param("p"))),
@@ -110,10 +115,20 @@ func runC18(in *Sx) *Sx {
 	return T("obs", out...)
 }
 
+// c18floatOK: the float accessor follows the rule of its siblings - the default for an absent or empty value,
+// otherwise what strconv.ParseFloat makes of the text (the oracle: +-Inf beyond the range, 0 for malformed text).
+func c18floatOK(got float64, v string, def []float64) bool {
+	want, _ := strconv.ParseFloat(v, 64)
+	if v == "" && len(def) > 0 {
+		want = def[0]
+	}
+	return got == want || (got != got && want != want)
+}
+
 func c18value(rng *rand.Rand) string {
 	pool := []string{"", "", "a", "  d ", "100%", "%41", "a+b", "1", "t", "TRUE", "true", "True", "0", "f", "no", "42", "-7", "+8", "007",
 		"9223372036854775807", "9223372036854775808", "-9223372036854775809", "99999999999999999999", "1_000", "0x10", "12a", " 12", "1.5", "1e3",
-		"\t x\n", "\xc2\xa0x\xc2\x85", "a;b", "a,b", "a b", "\"q\"", "\\", "\x00", "\x7f", "\xff\xfe", "é", "a=b&c=d", "%", "%zz", "+"}
+		"1e309", "-1e400", "1e-400", "NaN", "inf", "0x1p-2", ".5", "\t x\n", "\xc2\xa0x\xc2\x85", "a;b", "a,b", "a b", "\"q\"", "\\", "\x00", "\x7f", "\xff\xfe", "é", "a=b&c=d", "%", "%zz", "+"}
 	if rng.Intn(3) == 0 {
 		b := make([]byte, rng.Intn(6))
 		for i := range b {
